@@ -2461,3 +2461,9 @@ impl PropertiesParse for Properties {
         Ok((props, cursor))
     }
 }
+
+#[cfg(all(feature = "verif-hooks", kani))]
+#[allow(dead_code, unused)]
+pub(crate) mod verif_harness {
+    include!(concat!(env!("VERIF_HARNESS_DIR"), "/property_h.rs"));
+}
